@@ -545,6 +545,9 @@ func (ps *PathSim) exec(fn *ssa.Function, st *pstate, ins ssa.Instruction) {
 		} else {
 			st.env[x] = &Sym{K: sTAValue, A: a, T: x.AssertedType, V: x}
 			st.events = append(st.events, Event{In: fn, Args: []*Sym{a}, Res: st.env[x]})
+			if a.K == sMkIface && a.A != nil && a.A.T != nil && types.Identical(a.A.T, x.AssertedType) {
+				st.env[x] = a.A // the value the interface was made from
+			}
 			if _, toIface := x.AssertedType.Underlying().(*types.Interface); toIface && ps.IfaceAssertIdentity {
 				// an assertion to an interface type changes the static type only: the value (and what is known of its
 				// dynamic type) is the operand's
@@ -559,6 +562,9 @@ func (ps *PathSim) exec(fn *ssa.Function, st *pstate, ins ssa.Instruction) {
 		case sTypeAssert:
 			if x.Index == 0 {
 				st.env[x] = &Sym{K: sTAValue, A: t.A, T: t.T, V: x}
+				if t.A.K == sMkIface && t.A.A != nil && t.A.A.T != nil && types.Identical(t.A.A.T, t.T) {
+					st.env[x] = t.A.A // the value the interface was made from
+				}
 			} else {
 				st.env[x] = &Sym{K: sTAOk, A: t.A, T: t.T, V: x}
 			}
@@ -1042,6 +1048,11 @@ func evalBool(st *pstate, b *Sym) (bool, bool) {
 			if b.A.IsNil() {
 				return false, true
 			}
+			if x := b.A.A; x != nil && x.T != nil {
+				if _, isIface := x.T.Underlying().(*types.Interface); !isIface {
+					return typeMatches(x.T, b.T), true
+				}
+			}
 		}
 	case sCmp:
 		if b.Op == token.EQL || b.Op == token.NEQ {
@@ -1521,8 +1532,15 @@ func (ps *PathSim) walk(fn *ssa.Function, b *ssa.BasicBlock, start int, pred *ss
 				var bindings []*Sym
 				if callee == nil && !x.Common().IsInvoke() {
 					callee, bindings = ps.funcOfSym(ps.sym(st, x.Common().Value))
+				} else if _, isMC := x.Common().Value.(*ssa.MakeClosure); isMC {
+					// a closure called directly: its captured variables
+					_, bindings = ps.funcOfSym(ps.sym(st, x.Common().Value))
+					if bindings == nil {
+						bindings = []*Sym{}
+					}
 				}
-				if callee != nil && ps.Inline != nil && depth < ps.MaxDepth && len(callee.Blocks) > 0 && callee != fn && ps.Inline(callee) {
+				localClosure := callee != nil && callee.Parent() == fn && bindings != nil
+				if callee != nil && ps.Inline != nil && depth < ps.MaxDepth && len(callee.Blocks) > 0 && callee != fn && (ps.Inline(callee) || localClosure) {
 					com := x.Common()
 					iev := Event{Instr: x, In: fn, Callee: callee, Inlined: true}
 					for k, p := range callee.Params {
